@@ -84,6 +84,8 @@ let site_str (s : Faults.fsite) = match s with
   | Faults.SArg (n, k, _) -> Printf.sprintf "arg:%d:%d" (int_of_n n) (int_of_nat k)
   | Faults.SDrop (n, port, x) -> Printf.sprintf "drop:%d:%s:%d" (int_of_n n) (if port then "port" else "generic") (int_of_n x)
   | Faults.SFlip n -> Printf.sprintf "flip:%d" (int_of_n n)
+  | Faults.SStmt (n, Syntax.SCall (_, Syntax.ANil)) -> Printf.sprintf "stmt:%d:call_without_actuals" (int_of_n n)
+  | Faults.SStmt (n, _) -> Printf.sprintf "stmt:%d:other_callee" (int_of_n n)
 
 let coq_expr (e : Syntax.expr) : string = match e with
   | Syntax.EInt (i, v) -> Printf.sprintf "(EInt %d %d)" (int_of_n i) (int_of_n v)
@@ -97,6 +99,7 @@ let site_coq (s : Faults.fsite) = match s with
   | Faults.SArg (n, k, e) -> Printf.sprintf "SArg %d %d%%nat %s" (int_of_n n) (int_of_nat k) (coq_expr e)
   | Faults.SDrop (n, port, x) -> Printf.sprintf "SDrop %d %b %d" (int_of_n n) port (int_of_n x)
   | Faults.SFlip n -> Printf.sprintf "SFlip %d" (int_of_n n)
+  | Faults.SStmt (_, _) -> "?"
 
 let rewrite_str (r : Rewrites.rewrite) = match r with
   | Rewrites.RSwap s -> Printf.sprintf "swap:%d" (int_of_n s)
@@ -106,6 +109,7 @@ let rewrite_str (r : Rewrites.rewrite) = match r with
   | Rewrites.RUseItems s -> Printf.sprintf "useitems:%d" (int_of_n s)
   | Rewrites.RWrap (s, l) -> Printf.sprintf "wrap:%d:%d" (int_of_n s) (int_of_n l)
   | Rewrites.RAddDecl (s, x, k) -> Printf.sprintf "adddecl:%d:%d:%d" (int_of_n s) (int_of_n x) (int_of_n k)
+  | Rewrites.RAddLocal (s, x, k, y) -> Printf.sprintf "addlocal:%d:%d:%d:%d" (int_of_n s) (int_of_n x) (int_of_n k) (int_of_n y)
 
 let fresh_ident (p : Syntax.program) : int =
   1 + Stdlib.List.fold_left (fun m x -> max m (int_of_n x)) 8 (Rewrites.idents_program p)
@@ -135,6 +139,41 @@ let random_rewrite (p : Syntax.program) : Rewrites.rewrite option =
   | 5 -> (match pick (Rewrites.conc_ids p) with Some s -> Some (Rewrites.RWrap (s, nn (fresh_ident p))) | None -> None)
   | _ -> (match pick (Rewrites.add_sites p) with Some s -> Some (Rewrites.RAddDecl (s, nn (fresh_ident p), nn (rand 4))) | None -> None)
 
+(* nesting plan: concurrent statement s is wrapped into two nested blocks, then a declaration that overloads a
+   designator of an enclosing region (an enumeration type re-using a literal, an integer type = implicit operators,
+   a subprogram with an outer name and a profile of its own) is put into the INNER block; every step is an ordinary
+   rewrite checked by `applicable` *)
+let nest_plan (p : Syntax.program) : (Syntax.program * Rewrites.rewrite list) option =
+  let nn x = n_of_int x in
+  let concs = Stdlib.List.filter (fun (i : Walk.pinfo) -> match i.Walk.pi_ph with
+      | Walk.PConc (Syntax.CBlock (_, _, _)) -> false | Walk.PConc _ -> true | _ -> false) (Walk.walk_program p) in
+  match pick concs with
+  | None -> None
+  | Some i ->
+    let s = i.Walk.pi_id in
+    let r1 = Rewrites.RWrap (s, nn (fresh_ident p)) in
+    if not (Rewrites.applicable r1 p) then None else
+    let p1 = Rewrites.apply_rewrite r1 p in
+    let r2 = Rewrites.RWrap (s, nn (fresh_ident p1)) in
+    if not (Rewrites.applicable r2 p1) then None else
+    let inner = BinNat.N.add (Walk.max_nid p1) (nn 1) in
+    let p2 = Rewrites.apply_rewrite r2 p1 in
+    let used = (match i.Walk.pi_ph with
+        | Walk.PConc c -> Stdlib.List.map (fun ((_, _), x) -> int_of_n x) (Faults.oc_conc c) | _ -> []) in
+    let lits = Stdlib.List.filter (fun x -> Stdlib.List.mem (int_of_n x) used) (Rewrites.lit_idents p2) in
+    let subs = Stdlib.List.filter (fun x -> Stdlib.List.mem (int_of_n x) used) (Faults.sub_idents p2) in
+    let cands =
+      Stdlib.List.map (fun y -> (0, y)) lits @ Stdlib.List.map (fun y -> (2, y)) subs @
+      Stdlib.List.map (fun y -> (3, y)) subs @ [(1, nn 0)] in
+    let rec try_c k =
+      if k = 0 then Some (p2, [r1; r2]) else
+      match pick cands with
+      | Some (kk, y) ->
+        let r3 = Rewrites.RAddLocal (inner, nn (fresh_ident p2), nn kk, y) in
+        if Rewrites.applicable r3 p2 then Some (Rewrites.apply_rewrite r3 p2, [r1; r2; r3]) else try_c (k - 1)
+      | None -> Some (p2, [r1; r2]) in
+    try_c 4
+
 let rec rewrite_chain (p : Syntax.program) (depth : int) (tries : int) (acc : Rewrites.rewrite list) =
   if depth = 0 || tries = 0 then (p, Stdlib.List.rev acc)
   else match random_rewrite p with
@@ -147,10 +186,11 @@ let fclass_of_name s = Stdlib.List.find_opt (fun f -> fclass_name f = s) Faults.
    candidates of `Faults.site_candidates` are enumerated lazily here from the same extracted pieces (root_phrases /
    walk_program, lit_candidates, obj_candidates) and filtered with the extracted `eligible_at` on the phrase information
    of ONE walk of the program (the specification `eligible` walks the program again for every candidate). *)
-type fctx = { walk : Walk.pinfo list; roots : Walk.pinfo list; lits : Syntax.expr list; objs : Syntax.expr list; m : BinNums.coq_N }
+type fctx = { prog : Syntax.program; walk : Walk.pinfo list; roots : Walk.pinfo list; lits : Syntax.expr list; objs : Syntax.expr list;
+              subs : Syntax.expr list; m : BinNums.coq_N }
 let make_fctx (p : Syntax.program) : fctx =
   let w = Walk.walk_program p in
-  { walk = w;
+  { prog = p; walk = w; subs = Faults.sub_candidates p;
     roots = Stdlib.List.filter (fun i -> match Faults.phrase_root i.Walk.pi_ph with Some _ -> true | None -> false) w;
     lits = Faults.lit_candidates p; objs = Faults.obj_candidates p; m = Walk.max_nid p }
 let rec args_len = function Syntax.ANil -> 0 | Syntax.ACons (_, _, r) -> 1 + args_len r
@@ -160,6 +200,15 @@ let phrase_candidate (c : fctx) (f : Faults.fclass) : (Faults.fsite * Walk.pinfo
     (match pick c.roots, pick c.lits with Some i, Some e -> Some (Faults.SRoot (i.Walk.pi_id, e), i) | _ -> None)
   | Faults.FWrongObject ->
     (match pick c.roots, pick c.objs with Some i, Some e -> Some (Faults.SRoot (i.Walk.pi_id, e), i) | _ -> None)
+  | Faults.FNoOverload when rand 3 = 0 ->
+    (* the name of a subprogram where a value is expected *)
+    (match pick c.roots, pick c.subs with Some i, Some e -> Some (Faults.SRoot (i.Walk.pi_id, e), i) | _ -> None)
+  | Faults.FNoOverload when rand 2 = 0 ->
+    (* a procedure call without actuals / with another callee *)
+    let pcalls = Stdlib.List.filter (fun i -> match i.Walk.pi_ph with Walk.PStmt (Syntax.SCall (_, _)) -> true | _ -> false) c.walk in
+    (match pick pcalls with
+     | Some i -> (match pick (Faults.call_candidates c.prog i) with Some st -> Some (st, i) | None -> None)
+     | None -> None)
   | Faults.FNoOverload ->
     let calls = Stdlib.List.filter (fun i -> match Faults.phrase_root i.Walk.pi_ph with Some (Syntax.ECall (_, _)) -> true | _ -> false) c.roots in
     (match pick calls, pick (c.lits @ c.objs) with
@@ -239,7 +288,13 @@ let handle_case pid tag nrew depth nfaults rseed fwant choices =
   Printf.printf "M %s nodup_nids %b\n" base (Walk.nodup_nids p);
   emit_program base (tag * 64) p [];
   for k = 1 to nrew do
-    let (q, rs) = rewrite_chain p depth (depth * 16) [] in
+    let (q, rs) =
+      (* every second variant starts with the nesting plan *)
+      if k mod 2 = 0 then
+        (match nest_plan p with
+         | Some (q, rs) -> let (q', rs') = rewrite_chain q 1 8 [] in (q', rs @ rs')
+         | None -> rewrite_chain p depth (depth * 16) [])
+      else rewrite_chain p depth (depth * 16) [] in
     if rs <> [] then begin
       let id = Printf.sprintf "%s.r%d" pid k in
       Printf.printf "M %s rewrites %s\n" id (Stdlib.String.concat "," (Stdlib.List.map rewrite_str rs));
